@@ -606,7 +606,8 @@ func (g *docGen) mutateBytes(s string) string {
 			continue
 		case 6: // lone CR
 			i := g.r.Intn(len(lines))
-			lines[i] += "\r"
+			// a line break of YAML that pint does not count: lone CR, NEL, LS, PS
+			lines[i] += pick(g.r, []string{"\r", "\r", "\u0085", "\u2028", "\u2029"})
 			g.note("mut:cr")
 		case 7: // truncate
 			s = strings.Join(lines, "\n")
